@@ -165,7 +165,7 @@ def ms_stage_harnesses():
     for api, tname in (("s", "short"), ("i", "int"), ("f", "float"), ("d", "double")):
         for ch in (1, 2):
             isf = api in ("f", "d")
-            d = {"API_" + api: 1, "CH": ch, "LM": 6, "LIBSNDFILE_VERIF_BUFFER_LEN": 8, "MF_CAP": 16, "MF_MAXIO": 16, "SNP_MAX": 40, "PSF_MEMSET_MAX": 64, "MEMCPY_MAX": 20}
+            d = {"API_" + api: 1, "CH": ch, "LM": 6, "LIBSNDFILE_VERIF_BUFFER_LEN": 8, "MF_CAP": 16, "MF_MAXIO": 16, "SNP_MAX": 40, "PSF_MEMSET_MAX": 64, "MEMCPY_MAX": 40}
             d["SC_FIXED"] = 5
             d["LEN_FIXED"] = 6
             if isf: d["CONCRETE_VALUES"] = 1
@@ -182,7 +182,8 @@ def stage_generic_harnesses(sels=("SEL_READ", "SEL_WRITE")):
     """Staging wrappers of the 16-bit block codecs (harness/L3/stage_generic.c)."""
     out = []
     codecs = [("IMA", "ima_adpcm.c", "ima", (1, 2), []), ("MS", "ms_adpcm.c", "ms", (1, 2), []), ("GSM", "gsm610.c", "gsm610", (1,), []),
-              ("G72X", "g72x.c", "g72x", (1,), ["G72x/g72x", "G72x/g721", "G72x/g723_16", "G72x/g723_24", "G72x/g723_40"]), ("NMS", "nms_adpcm.c", "nms", (1,), [])]
+              ("G72X", "g72x.c", "g72x", (1,), ["G72x/g72x", "G72x/g721", "G72x/g723_16", "G72x/g723_24", "G72x/g723_40"]), ("NMS", "nms_adpcm.c", "nms", (1,), []),
+              ("SDS", "sds.c", "sds", (1,), []), ("PAF24", "paf.c", "paf24", (1, 2), [])]
     for sel in sels:
         for cid, cfile, tag, chs, extra_link in codecs:
             for api, tname in (("s", "short"), ("i", "int"), ("f", "float"), ("d", "double")):
@@ -190,13 +191,13 @@ def stage_generic_harnesses(sels=("SEL_READ", "SEL_WRITE")):
                     if cid == "MS" and sel == "SEL_WRITE":
                         continue            # covered by ms.stage.write.*
                     isf = api in ("f", "d")
-                    d = {sel: 1, "CODEC_" + cid: 1, "CODEC_FILE": '"%s"' % cfile, "API_" + api: 1, "CH": ch, "LEN": 6, "SC": 5, "LIBSNDFILE_VERIF_BUFFER_LEN": 8,
-                         "MF_CAP": 16, "MF_MAXIO": 16, "SNP_MAX": 40, "PSF_MEMSET_MAX": 64, "MEMCPY_MAX": 20}
+                    d = {sel: 1, "CODEC_" + cid: 1, "CODEC_FILE": '"%s"' % cfile, "API_" + api: 1, "CH": ch, "LEN": 6, "SC": 2 if cid == "PAF24" else 5, "LIBSNDFILE_VERIF_BUFFER_LEN": 8,
+                         "MF_CAP": 16, "MF_MAXIO": 16, "SNP_MAX": 40, "PSF_MEMSET_MAX": 64, "MEMCPY_MAX": 40}
                     out.append(H("stage.%s.%s.%s.ch%d" % (tag, sel[4:].lower(), tname, ch), "L3/stage_generic.c", link=["common"] + extra_link + (["GSM610/gsm_create", "GSM610/gsm_destroy", "GSM610/gsm_option"] if cid == "GSM" else []),
                                  stubs=["psf_log_printf", "psf_memset"], defines=d, unwind=9,
-                                 unwindset=["psf_fwrite.0:17", "psf_fread.0:17", "memcpy.0:21", "memset.0:21", "snprintf.0:41", "snprintf.1:41", "main.0:10", "main.1:10"], checks="mem", fsa=400,
+                                 unwindset=["psf_fwrite.0:17", "psf_fread.0:17", "memcpy.0:41", "memset.0:41", "snprintf.0:41", "snprintf.1:41", "main.0:10", "main.1:10"], checks="mem", fsa=400,
                                  solver="cadical" if isf else "default", include_env=("log_stub", "memfile", "memset_model", "snprintf_model", "memcpy_model"), timeout=300,
                                  tiers=("quick", "thorough") if ch == max(chs) else ("thorough",),
                                  functions=["%s read/write wrappers and X_read_block / X_write_block" % cfile],
-                                 bounds="%d channel(s), one call of 6 items to/from an exact-size heap block (symbolic values; position-distinct constants for float/double writes), 5 frames into the block, staging buffer 4 shorts (hook)" % ch))
+                                 bounds="%d channel(s), one call of 6 items to/from an exact-size heap block (symbolic values; position-distinct constants for float/double writes), a few frames into the block, staging buffer 8 bytes (hook)" % ch))
     return out
